@@ -146,7 +146,7 @@ def body(case, ctx):
 
 
 def shards(tier, seed):
-    n = 250 if tier == 'quick' else 7000
+    n = 250 if tier == 'quick' else 11000
     return [{'n': n} for _ in range(16)]
 
 
